@@ -173,7 +173,49 @@ def failing_case(draw):
             "cli": cli, "max_trace": mt, "color": color}
 
 
+STRAY_PLACES = 6
+
+
+def stray_source(cp, place):
+    ch = chr(cp)
+    if place == 0:
+        return ch + "{a: 1}", {}
+    if place == 1:
+        return "{a: 1}" + ch, {}
+    if place == 2:
+        return "local x = 1;\r\n\t" + ch + " x", {}
+    if place == 3:
+        return "import 'zw.libsonnet'", {"zw.libsonnet": "1 + " + ch}
+    if place == 4:
+        return "/* \u00e9\u4e2d */ " + ch, {}
+    return "'a' + " + ch + "\n", {}
+
+
+def enum_stray(tier, worker, nworkers):
+    """Characters outside the lexical grammar placed where they are an error: every character without display width that
+    Python's Unicode tables know (combining marks, enclosing marks, format characters, controls, line / paragraph separators,
+    conjoining jamo) - these are the ones a renderer's column arithmetic can trip over - plus a strided sample of all scalars."""
+    import unicodedata
+    k = 0
+    stride = 997 if tier == "quick" else 37
+    for cp in range(0x80, 0x110000):
+        if 0xd800 <= cp <= 0xdfff:
+            continue
+        cat = unicodedata.category(chr(cp))
+        special = cat in ("Mn", "Me", "Cf", "Cc", "Zl", "Zp") or 0x1160 <= cp <= 0x11ff
+        if not special and cp % stride:
+            continue
+        places = range(STRAY_PLACES) if (tier == "thorough" and special) else [(cp * 7 + cp // 13) % STRAY_PLACES]
+        for place in places:
+            if k % nworkers == worker:
+                yield {"kind": "stray", "cp": cp, "place": place, "cli": True, "max_trace": 20, "color": bool((cp >> 2) & 1)}
+            k += 1
+
+
 def build_source(case):
+    if case["kind"] == "stray":
+        src, files = stray_source(case["cp"], case["place"])
+        return src.encode("utf-8"), {k: v.encode("utf-8") for k, v in files.items()}, []
     if case["kind"] == "template":
         src, files, ext, _ = TEMPLATES[case["i"]]
         data = (case["prefix"] + src).encode("utf-8") if case["i"] != len(TEMPLATES) - 1 else b"\xff\xfe"
@@ -265,8 +307,10 @@ def render_check(case, data, files, ext, err, primary, sources):
             args += ["--ext-code" if k == "code" else "--ext-str", f"{n}={v}"]
         env = {} if not case["color"] else {"NO_COLOR": ""}
         rc, out, errb = run_cli(args + ["main.jsonnet"], cwd=d, env=env)
-        # reference run with an unlimited trace
-        rc2, out2, errb2 = run_cli(args[:2] + args[4:] + ["main.jsonnet"], cwd=d)
+        # reference run with an unlimited trace (only needed when there is a trace to crop)
+        errb2 = errb
+        if err.get("stack"):
+            rc2, out2, errb2 = run_cli(args[:2] + args[4:] + ["main.jsonnet"], cwd=d)
     text = errb.decode("utf-8", "replace")
     what = f"{data[:100]!r} (-t {case['max_trace']}, colour={case['color']})"
     if rc < 0:
@@ -326,6 +370,7 @@ def render_check(case, data, files, ext, err, primary, sources):
 CHECKS = [
     Check("span_manager_roundtrip", check_spans, span_case, quick=400, thorough=15000),
     Check("error_spans_and_rendering", check_failing, failing_case, quick=250, thorough=8000),
+    Check("stray_characters_render", check_failing, enumerate_fn=enum_stray),
     _fuzz.replay_check(["pipeline"]),
 ]
 FUZZ = [("pipeline", 300_000, 800)]
